@@ -1,6 +1,6 @@
 """C03 - units mirror pages / slides / sheets / chapters / messages.
 
-Space I (bounded-exhaustive, no sampling). Four parts:
+Space I (bounded-exhaustive, no sampling). Five parts:
 
 (vec)   unit-kind vectors: every vector of length 1..N (quick N=3, thorough N=4; mbox also length 0) over the unit kinds the
         format's reference writer can express - text, empty, whitespace-only, image-only, table-only (plus "titled" = title +
@@ -11,9 +11,20 @@ Space I (bounded-exhaustive, no sampling). Four parts:
         L=4; thorough bodies at L=4 restricted to HEAD_BODIES_LONG) over heading level 1..3 x section body in
         {paragraph, empty, page break only, page break + paragraph, paragraph + page break, table}, with / without a
         preamble paragraph in front of the first heading.
+(cells)  sheet units whose body is not only token text: xlsx, ods, xls sheets holding typed scalar cells (numbers and booleans,
+        among them the values that are falsy in Python: 0, 0.0, False; thorough also -0.0, -1 and a date) next to token string
+        cells. A sheet is a full r x c rectangle (gaps and ragged ranges are C13's space) whose cells are "C" (a fresh token
+        string) or a typed ADM cell, every typed value class at most once per sheet (so "the value is in its unit" is decidable
+        without counting). (a) single sheet: EVERY such rectangle of the shapes CELL_SHAPES[tier] over "C" + the four values of
+        each value set in CELL_VALUE_SETS[tier] (so a typed value stands at every position: first / inner / last row and
+        column, alone in a row or column or next to text or to another typed value); (b) workbooks: every vector of length 2
+        (thorough: 2..3) over the sheet alphabet cell_sheet_alphabet(value set) = {one token, empty sheet, a lone falsy value,
+        a text row followed by a falsy row, a text column followed by a falsy column, truthy next to falsy, a text row followed
+        by an all-falsy row}. Writer options: xls additionally with RK-encoded integers when the sheet holds an integer.
 (fix)   every file under /repo/sharepoint2text/tests/resources through read_file: numbering / uniqueness / join only.
 
-A case is plain JSON: {"kinds": [...], "opts": {...}} | {"pre": 0|1, "secs": [[level, body], ...]} | {"file": name}.
+A case is plain JSON: {"kinds": [...], "opts": {...}} | {"sheets": [grid, ...], "opts": {...}} (grid = rows of "C" | ADM typed
+cell such as ["i", 0]) | {"pre": 0|1, "secs": [[level, body], ...]} | {"file": name}.
 All tokens are allocated from Tokens(seed) in source order, so the case alone determines the document.
 
 Oracle clauses (each demands only what the statement says; the part after the colon names the way it failed):
@@ -27,7 +38,12 @@ Oracle clauses (each demands only what the statement says; the part after the co
   cover:lost / cover:dup / cover:mixed (/ cover:spread / cover:path for flowing formats)
           every body token is found (get_text(), a cell of get_tables(), heading path / location / title) in exactly one
           unit, and no unit mixes text of two source units; flowing formats with more than one unit: a unit does not mix
-          two sections, a section's text is not spread over several units, a unit's heading path names its own heading
+          two sections, a section's text is not spread over several units, a unit's heading path names its own heading.
+          (cells) part, judged when the unit count is right (unit i <-> sheet i): cover:lost = a typed cell value of sheet i is
+          shown by no table cell and no white-space separated word of the text of unit i; cover:mixed = unit i shows a typed
+          value that sheet i does not hold but another sheet of the workbook does. "Shows" is wide: a number is shown by an
+          equal int / float or by a string that reads as an equal number ("0", "0.0"), a boolean by the bool or by
+          true/false in any letter case, a date by an equal date / midnight datetime or its ISO spelling
   cover-heading:lost / cover-heading:misplaced  (flowing formats)
           every heading text is found in the text or heading path of at least one unit and only in units of its own
           section or of sections nested below it
@@ -42,6 +58,7 @@ import itertools
 import json
 import os
 import random
+import re
 import struct
 import zipfile
 
@@ -121,6 +138,74 @@ def head_cases(tier):
                 if n == 0 and not pre:
                     continue
                 yield {"pre": pre, "secs": [list(s) for s in secs]}
+
+
+# (cells) part: typed scalar cells in sheet units. A value set is (falsy 1, falsy 2, truthy 1, truthy 2), pairwise of different
+# value classes (see cell_class); quick's sets are a prefix of thorough's.
+CELL_FORMATS = ["xlsx", "ods", "xls"]
+_VS_INT = [["i", 0], ["b", False], ["i", 7], ["b", True]]
+_VS_FLOAT = [["f", 0.0], ["b", False], ["f", 2.5], ["b", True]]
+_VS_MORE = [["f", -0.0], ["b", False], ["i", -1], ["d", "2020-02-03"]]
+CELL_VALUE_SETS = {"quick": [_VS_INT, _VS_FLOAT], "thorough": [_VS_INT, _VS_FLOAT, _VS_MORE]}
+# (rows, columns, max number of typed cells); quick's shapes are a prefix of thorough's
+_SHAPES_Q = [(1, 1, 1), (1, 2, 2), (2, 1, 2), (2, 2, 4), (1, 3, 3), (3, 1, 3)]
+CELL_SHAPES = {"quick": _SHAPES_Q, "thorough": _SHAPES_Q + [(2, 3, 2), (3, 2, 2), (3, 3, 2)]}
+CELL_VEC_LEN = {"quick": (2,), "thorough": (2, 3)}
+
+
+def cell_class(cell):
+    """Value class of a typed ADM cell: two cells of one class are shown the same way (int 0 and float 0.0 are one class)."""
+    k = cell[0]
+    if k in ("i", "f"):
+        return ("num", float(cell[1]))
+    if k == "b":
+        return ("bool", bool(cell[1]))
+    if k == "d":
+        return ("date", cell[1])
+    raise ValueError("cell %r" % (cell,))
+
+
+def cell_grids(r, c, kmax, values):
+    """every r x c rectangle over "C" + values with <= kmax typed cells, each value at most once; canonical order."""
+    n = r * c
+    for k in range(0, min(kmax, n, len(values)) + 1):
+        for pos in itertools.combinations(range(n), k):
+            for vals in itertools.permutations(values, k):
+                flat = ["C"] * n
+                for p_, v in zip(pos, vals):
+                    flat[p_] = list(v)
+                yield [flat[i * c:(i + 1) * c] for i in range(r)]
+
+
+def cell_sheet_alphabet(values):
+    z1, z2, t1 = values[0], values[1], values[2]
+    return [[["C"]], [], [[z1]], [[z2]], [["C"], [z1]], [["C", z2]], [[t1, z1]], [["C", "C"], [z2, z1]]]
+
+
+def _cell_opts(fmt, sheets):
+    yield {}
+    if fmt == "xls" and any(isinstance(x, list) and x[0] == "i" for g in sheets for row in g for x in row):
+        yield {"rk": True}
+
+
+def cells_cases(fmt, tier):
+    seen = set()
+    def emit(sheets):
+        key = json.dumps(sheets)
+        if key in seen:
+            return
+        seen.add(key)
+        for o in _cell_opts(fmt, sheets):
+            yield {"sheets": sheets, "opts": o}
+    for values in CELL_VALUE_SETS[tier]:
+        for r, c, kmax in CELL_SHAPES[tier]:
+            for g in cell_grids(r, c, kmax, values):
+                yield from emit([g])
+    for values in CELL_VALUE_SETS[tier]:
+        alpha = cell_sheet_alphabet(values)
+        for n in CELL_VEC_LEN[tier]:
+            for vec in itertools.product(alpha, repeat=n):
+                yield from emit([[list(row) for row in g] for g in vec])
 
 
 def fixture_files():
@@ -331,6 +416,44 @@ def render_vec(fmt, case, seed):
     raise ValueError(fmt)
 
 
+def grid_desc(grid):
+    return "/".join(",".join("C" if x == "C" else repr(x[1]) for x in row) for row in grid) or "empty"
+
+
+def render_cells(fmt, case, seed):
+    """-> (bytes, truth); truth as in render_vec plus "typed": [(ADM cell, row, column)] per sheet."""
+    tk = Tokens(seed)
+    opts = dict(case.get("opts") or {})
+    sheets, truth = [], []
+    for grid in case["sheets"]:
+        name = tk.new("N")
+        body, typed, rows = [], [], []
+        for r, row in enumerate(grid):
+            out = []
+            for c, x in enumerate(row):
+                if x == "C":
+                    t = tk.new("C"); body.append(t)
+                    out.append(["s", t])
+                else:
+                    cell_class(x)
+                    typed.append((list(x), r, c))
+                    out.append(list(x))
+            rows.append(out)
+        sheets.append(["sheet", name, rows])
+        truth.append({"body": body, "ident": [name], "kind": grid_desc(grid), "typed": typed})
+    doc = ["doc", {}, sheets]
+    if fmt == "xlsx":
+        from verif.gen import ooxml
+        return ooxml.xlsx(doc, {}, opts), truth
+    if fmt == "ods":
+        from verif.gen import odf
+        return odf.ods(doc, {}, opts), truth
+    if fmt == "xls":
+        from verif.gen import biff8
+        return biff8.xls(doc, {}, opts), truth
+    raise ValueError(fmt)
+
+
 def render_head(fmt, case, seed):
     """-> (bytes, sections); sections[0] is the preamble (heading None); every section = {"h": tok|None, "level": n,
     "body": [tokens], "present": bool}."""
@@ -388,18 +511,20 @@ def observe(results):
             text = u.get_text()
             md = u.get_metadata()
             toks = set(find_tokens(text if isinstance(text, str) else ""))
+            cells = []
             for t in u.get_tables():
                 for row in t.get_table():
                     for c in row:
                         if c is not None:
                             toks.update(find_tokens(str(c)))
+                            cells.append(c)
             meta = []
             for a in ("heading_path", "location", "title", "sheet_name"):
                 _strs(getattr(md, a, None), meta)
             path = set()
             for s in meta:
                 path.update(find_tokens(s))
-            us.append({"num": getattr(md, "unit_number", None), "text": text, "toks": toks, "path": path})
+            us.append({"num": getattr(md, "unit_number", None), "text": text, "toks": toks, "path": path, "cells": cells})
         obs.append({"cls": type(r).__name__, "full": r.get_full_text(), "units": us})
     return obs
 
@@ -437,7 +562,12 @@ def evaluate_vec(fmt, case, seed):
         data, truth = render_vec(fmt, case, seed)
     except NotImplementedError:
         return None, None          # not expressible by the reference writer
-    kinds = case["kinds"]
+    return judge_vec(fmt, case["kinds"], truth, data)
+
+
+def judge_vec(fmt, kinds, truth, data, extra=None):
+    """The oracle of the (vec) / (single) / (cells) parts. `extra(units, fails)` adds the clauses of a part that has more ground
+    truth than tokens (it sees the units after the count clause was judged)."""
     n = len(kinds)
     try:
         obs = observe(extract(fmt, data))
@@ -516,8 +646,72 @@ def evaluate_vec(fmt, case, seed):
                 if units[k]["num"] not in ok:
                     fails.append(("number:position", f"the unit holding source unit {s[0] + 1} of {kinds} is numbered {units[k]['num']}"))
                     break
+    if extra is not None:
+        extra(units, fails)
     outcome = (len(obs), tuple(u["num"] for u in units), tuple(tuple(s) for s in src_of), tuple(sorted({c for c, _ in fails})))
     return _dedup(fails), str(outcome)
+
+
+_NUM_RX = re.compile(r"^[+-]?(\d+(\.\d*)?|\.\d+)([eE][+-]?\d+)?$")
+
+
+def shows(cls, item):
+    """Does a returned table cell / a word of the unit text show a typed value of class `cls`? (wide on purpose)"""
+    kind, v = cls
+    if kind == "num":
+        if isinstance(item, bool):
+            return False
+        if isinstance(item, (int, float)):
+            return float(item) == v
+        return isinstance(item, str) and _NUM_RX.match(item.strip()) is not None and float(item.strip()) == v
+    if kind == "bool":
+        if isinstance(item, bool):
+            return item == v
+        return isinstance(item, str) and item.strip().lower() == ("true" if v else "false")
+    if kind == "date":
+        import datetime as _dt
+        if isinstance(item, _dt.datetime):
+            return item.tzinfo is None and item == _dt.datetime.fromisoformat(v)
+        if isinstance(item, _dt.date):
+            return item.isoformat() == v
+        return isinstance(item, str) and item.strip() in (v, v + "T00:00:00", v + " 00:00:00")
+    raise ValueError(cls)
+
+
+def unit_items(u):
+    return list(u.get("cells") or []) + (u["text"].split() if isinstance(u["text"], str) else [])
+
+
+def judge_typed(truth, units, fails):
+    """cover:lost / cover:mixed for typed cell values (unit i <-> sheet i; only judged when the count is right)."""
+    if len(units) != len(truth):
+        return
+    items = [unit_items(u) for u in units]
+    have = [{cell_class(cell): (cell, r, c) for cell, r, c in t["typed"]} for t in truth]
+    kinds = [t["kind"] for t in truth]
+    for i, h in enumerate(have):
+        lost = [(cell, r, c) for cls, (cell, r, c) in h.items() if not any(shows(cls, it) for it in items[i])]
+        if lost:
+            cell, r, c = lost[0]
+            fails.append(("cover:lost", f"the value {cell[1]!r} ({cell[0]}) of cell (row {r + 1}, column {c + 1}) of source unit {i + 1} (sheet {kinds[i]}) of {kinds} "
+                                        f"is shown by no table cell and no word of the text of its unit: text {units[i]['text']!r}, table cells {units[i].get('cells')!r}"))
+            break
+    everywhere = {}
+    for i, h in enumerate(have):
+        for cls, (cell, _, _) in h.items():
+            everywhere.setdefault(cls, (cell, i))
+    for i, h in enumerate(have):
+        foreign = [(cell, j) for cls, (cell, j) in everywhere.items() if cls not in h and any(shows(cls, it) for it in items[i])]
+        if foreign:
+            cell, j = foreign[0]
+            fails.append(("cover:mixed", f"unit {i + 1} (number {units[i]['num']}, sheet {kinds[i]}) shows the value {cell[1]!r} ({cell[0]}), which only source unit {j + 1} "
+                                         f"of {kinds} holds: text {units[i]['text']!r}, table cells {units[i].get('cells')!r}"))
+            break
+
+
+def evaluate_cells(fmt, case, seed):
+    data, truth = render_cells(fmt, case, seed)
+    return judge_vec(fmt, [t["kind"] for t in truth], truth, data, extra=lambda units, fails: judge_typed(truth, units, fails))
 
 
 def _dedup(fails):
@@ -632,6 +826,8 @@ def evaluate(fmt, case, seed=0):
         return evaluate_fixture(case)
     if "secs" in case:
         return evaluate_head(fmt, case, seed)
+    if "sheets" in case:
+        return evaluate_cells(fmt, case, seed)
     return evaluate_vec(fmt, case, seed)
 
 
@@ -646,7 +842,7 @@ def describe(fmt, case, seed=0):
             import sharepoint2text
             obs = observe(list(sharepoint2text.read_file(os.path.join(RES_DIR, case["file"]))))
         else:
-            data = (render_head if "secs" in case else render_vec)(fmt, case, seed)[0]
+            data = (render_head if "secs" in case else render_cells if "sheets" in case else render_vec)(fmt, case, seed)[0]
             obs = observe(extract(fmt, data))
         return [[ri + 1, u["num"], (u["text"] or "")[:80], sorted(u["path"])] for ri, o in enumerate(obs) for u in o["units"]][:8]
     except Exception as e:  # noqa
@@ -686,6 +882,27 @@ def shrinks(case):
             if lv > 1:
                 yield dict(case, secs=secs[:i] + [[lv - 1, b]] + secs[i + 1:])
         return
+    if "sheets" in case:
+        sheets, opts = case["sheets"], case.get("opts") or {}
+        def with_sheet(i, g):
+            return {"sheets": sheets[:i] + [g] + sheets[i + 1:], "opts": opts}
+        for i in range(len(sheets)):
+            if len(sheets) > 1:
+                yield {"sheets": sheets[:i] + sheets[i + 1:], "opts": opts}
+        for k in sorted(opts):
+            yield {"sheets": sheets, "opts": {a: b for a, b in opts.items() if a != k}}
+        for i, g in enumerate(sheets):
+            if len(g) > 1:
+                for r in range(len(g)):
+                    yield with_sheet(i, g[:r] + g[r + 1:])
+            if g and len(g[0]) > 1:
+                for c in range(len(g[0])):
+                    yield with_sheet(i, [row[:c] + row[c + 1:] for row in g])
+            for r, row in enumerate(g):
+                for c, x in enumerate(row):
+                    if x != "C":
+                        yield with_sheet(i, g[:r] + [row[:c] + ["C"] + row[c + 1:]] + g[r + 1:])
+        return
     kinds, opts = case["kinds"], case.get("opts") or {}
     for i in range(len(kinds)):
         if len(kinds) > 1:                            # stay inside the enumerated space (the empty mailbox is swept directly)
@@ -703,9 +920,27 @@ def _subseq(small, big, eq=lambda a, b: a == b):
     return all(any(eq(s, b) for b in it) for s in small)
 
 
+def _grid_embeds(g, big):
+    """g is what is left of `big` after deleting rows / columns and replacing typed cells by "C"."""
+    if not g:
+        return True
+    if len(g) > len(big) or len(g[0]) > len(big[0]):
+        return False
+    for rows in itertools.combinations(range(len(big)), len(g)):
+        for cols in itertools.combinations(range(len(big[0])), len(g[0])):
+            if all(g[a][b] == "C" or g[a][b] == big[r][c] for a, r in enumerate(rows) for b, c in enumerate(cols)):
+                return True
+    return False
+
+
 def embeds(small, big):
     if set(small) - {"opts"} != set(big) - {"opts"}:
         return False
+    if "sheets" in small:
+        so, bo = small.get("opts") or {}, big.get("opts") or {}
+        if any(bo.get(k) != v for k, v in so.items()):
+            return False
+        return _subseq(small["sheets"], big["sheets"], _grid_embeds)
     if "file" in small:
         return small["file"] == big["file"]
     if "secs" in small:
@@ -725,6 +960,8 @@ def _part_cases(part, fmt, tier):
         return vec_cases(fmt, tier)
     if part == "single":
         return single_cases(fmt)
+    if part == "cells":
+        return cells_cases(fmt, tier)
     if part == "head":
         return head_cases(tier)
     if part == "fix":
@@ -766,6 +1003,9 @@ def run(ctx):
         args += [("vec", fmt, tier, k, n, ctx.seed) for k in range(n)]
     for fmt in SINGLE_KINDS:
         args.append(("single", fmt, tier, 0, 1, ctx.seed))
+    for fmt in CELL_FORMATS:
+        n = 4 if ctx.quick else 16
+        args += [("cells", fmt, tier, k, n, ctx.seed) for k in range(n)]
     for fmt in HEAD_FORMATS:
         n = 8 if ctx.quick else 48
         args += [("head", fmt, tier, k, n, ctx.seed) for k in range(n)]
@@ -798,11 +1038,16 @@ def run(ctx):
            "rule": f"every unit-kind vector of length 1..{nmax} (mbox 0..{nmax}) over the kinds each writer can express x writer option variants, "
                    f"for {', '.join(VEC_FORMATS)}; every expressible kind for the one-unit formats {', '.join(SINGLE_KINDS)}; every heading "
                    f"structure of <= {nmax} sections over level 1..3 x body {HEAD_BODIES} (length 4: {HEAD_BODIES_LONG}) x preamble for docx, odt; "
+                   f"(cells) for {', '.join(CELL_FORMATS)}: every full rectangle of the shapes (rows, columns, max typed cells) {CELL_SHAPES[tier]} over a token "
+                   f"string + each of the value sets {CELL_VALUE_SETS[tier]} (each value at most once per sheet) and every workbook of "
+                   f"{' / '.join(str(x) for x in CELL_VEC_LEN[tier])} sheets over the 8-sheet alphabet of each value set (xls also with RK integers); "
                    f"all {nfix} repository fixtures (number / join clauses). distinct_nontrivial = distinct (format, #units, unit numbers, "
                    "source units per unit, failed clauses) outcomes",
            "per_part": dict(sorted(per.items())), "skipped_inexpressible": skipped, "samples": samples,
            "outcomes": dict(sorted(outcomes.items(), key=lambda kv: -kv[1])[:80]),
-           "bounds": {"tier": tier, "max_units": nmax, "max_sections": nmax, "kinds": VEC_KINDS, "opts": VEC_OPTS}}
+           "bounds": {"tier": tier, "max_units": nmax, "max_sections": nmax, "kinds": VEC_KINDS, "opts": VEC_OPTS,
+                      "cells": {"formats": CELL_FORMATS, "value_sets": CELL_VALUE_SETS[tier], "shapes_rows_cols_maxtyped": CELL_SHAPES[tier],
+                                "workbook_lengths": list(CELL_VEC_LEN[tier]), "sheet_alphabet_of_first_value_set": cell_sheet_alphabet(CELL_VALUE_SETS[tier][0])}}}
     assumptions = [
         "mbox: one result per message, each with exactly one unit numbered 1 (README table); count / order are judged over results",
         "EPUB: an SVG (non-XHTML) spine item may or may not yield a unit and chapters may be numbered by spine position or by chapter "
@@ -812,6 +1057,9 @@ def run(ctx):
         "heading text may appear in the heading path of its own section's unit and of every section nested below it",
         "sheet names (class N) and slide titles are used to identify a unit but sheet names are not demanded in the text (xls documents "
         "that it omits them); images are not judged (xls documents workbook-level images)",
+        "typed spreadsheet cells (numbers, booleans, dates) are body text of their sheet: the value must be shown by a table cell or a word of the text "
+        "of the sheet's unit, in any of the spellings listed under cover in the module docstring (the type of the returned value is C13's business); "
+        "units are matched to sheets by position, so these clauses are only judged when the unit count is right; gaps / ragged ranges are C13's space",
         "image-only, empty and whitespace-only units are identified by position only (number clause applies when the count is right)",
         "duplicates of a token inside one unit (e.g. pptx table text in get_text() and get_tables()) are C02's business, not judged here",
         "fixtures: only 'ints >= 1, strictly increasing' and the join equation are judged (no ground truth for their unit count); fixtures "
